@@ -156,7 +156,7 @@ def prepare_lean(prop: str, thorough: bool = False) -> LeanState:
             st.translate_notes = [f"translator error: {type(e).__name__}: {e}"]
         # the driver first (import-free models): needed for the failing-input search even when a
         # proof is broken
-        rc, log = _run(["lake", "build", "uxdriver"], cwd=LEAN)
+        rc, log = _run(["lake", "build", f"drv_{prop.lower()}"], cwd=LEAN)
         st.driver_ok = rc == 0
         st.build_log += log if rc else ""
         st.obligations = theorems_of(prop)
@@ -218,12 +218,12 @@ def prepare_lean(prop: str, thorough: bool = False) -> LeanState:
 class Driver:
     """Pipe to the Lean driver (native exe; `lean --run` as a fall-back)."""
 
-    def __init__(self):
-        exe = LEAN / ".lake" / "build" / "bin" / "uxdriver"
+    def __init__(self, prop):
+        exe = LEAN / ".lake" / "build" / "bin" / f"drv_{prop.lower()}"
         if exe.exists():
             cmd = [str(exe)]
         else:
-            cmd = ["lake", "env", "lean", "--run", "Main.lean"]
+            cmd = ["lake", "env", "lean", "--run", f"Drivers/{prop.upper()}.lean"]
         self.p = subprocess.Popen(
             cmd, cwd=LEAN, stdin=subprocess.PIPE, stdout=subprocess.PIPE, text=True, bufsize=1
         )
@@ -413,9 +413,19 @@ class Ctx:
 
 
 def load_known():
-    if KNOWN.exists():
-        return json.loads(KNOWN.read_text())
-    return {"findings": [], "fixed": []}
+    """known_findings.json (read-only at run time).  Per-property fragments under
+    known_findings.d/ are merged in (same shape); they exist so that the per-property files can
+    be edited independently and are folded into the single file at integration time."""
+    k = {"findings": [], "fixed": []}
+    files = [KNOWN] if KNOWN.exists() else []
+    d = VERIF / "known_findings.d"
+    if d.is_dir():
+        files += sorted(d.glob("*.json"))
+    for f in files:
+        j = json.loads(f.read_text())
+        k["findings"] += j.get("findings", [])
+        k["fixed"] += j.get("fixed", [])
+    return k
 
 
 def _size(o):
